@@ -16,6 +16,8 @@ func vectorLive() bool { return false }
 
 func rescale(p *curve.EdwardsPoint, rng *rand.Rand) *curve.EdwardsPoint { return p }
 
+func coordsConsistent(p *curve.EdwardsPoint) bool { return true }
+
 func ristFromEd(p *curve.EdwardsPoint) *curve.RistrettoPoint { return nil }
 
 func graftSingle(x *ctx, rng *rand.Rand, e gen.KP, lp *curve.EdwardsPoint, s, s2 *big.Int, sc, sc2 *scalar.Scalar, w1, w2, w3 ref.Pt, d func() string) {
